@@ -7,7 +7,7 @@ import gen_akai as G
 from common import Case, Finding, Report, run_driver
 
 ASSUMPTIONS = [
-    "damage is confined to the 24 bytes of one AKAI file-table entry (Roland records: see C02/C14 Roland part, pending)",
+    "damage is confined to the 24 bytes of one AKAI file-table entry, or to the 32-byte directory record / 48-byte parameter record of one Roland sample",
     "sibling names in the generated volumes are clean and pairwise non-pairing, so an undamaged sibling keeps its name unless the damaged entry's *new* name collides or pairs with it (reported as its own class)",
 ]
 
@@ -91,11 +91,74 @@ def run_case(rep: Report, cases, ctx, rng, img, disc, k, pos, val, base_files, b
             return
 
 
+def roland_sweep(ctx, rep: Report, cases, rng, full: bool):
+    """damage one sample's 32-byte directory record / 48-byte parameter record; the other samples of the
+    performance must keep their names and audio."""
+    import gen_roland as GR
+
+    W = GR.random_words
+    for vi in range(1 if not full else 3):
+        ns = rng.randint(3, 4)
+        samples = {i: GR.Sample(f"Smp {i}", W(rng, rng.choice([50, 4608, 6000])), mode=rng.choice([0, 2, 5]), freq=rng.randrange(6)) for i in range(ns)}
+        disc = GR.Disc([GR.Volume("V", [0])], {0: GR.Performance("P", [0])}, {0: GR.Patch("Q", [0])}, {0: GR.Partial("R", list(range(ns)) + [None] * (4 - ns))}, samples)
+        img, info = GR.serialize(disc, rng)
+        with E.Scratch() as s:
+            p = s.write("r.img", img)
+            base_files, _, berr = E.export_real(p)
+        if berr or len(base_files) != ns:
+            rep.findings.append(Finding("roland-undamaged-performance-fails", {"error": berr, "files": sorted(base_files)}))
+            continue
+        k = rng.randrange(ns)
+        regions = [("dir", GR.DIR["samp"] + 32 * k, 32), ("par", GR.PAR["samp"][0] + 48 * k, 48)]
+        for rname, roff, rlen in regions:
+            for pos in range(rlen):
+                vals = range(0, 256, 1 if full and vi == 0 else 37) if full else sorted({0, 0xFF, rng.randrange(256), rng.randrange(256)})
+                for val in vals:
+                    if img[roff + pos] == val:
+                        continue
+                    dmg = bytearray(img)
+                    dmg[roff + pos] = val
+                    with E.Scratch() as s:
+                        p = s.write("d.img", bytes(dmg))
+                        files, exported, err = E.export_real(p)
+                        out, lerr = E.ls_real(p, "V/P")
+                        with_model = ctx.model_available and (rep.features.get("roland_damaged_images", 0) % (61 if full else 17)) == 0
+                        if with_model:
+                            res, _, _, _ = FA.export_str(p)
+                            ls_res = FA.ls_str(p, "V/P")
+                            mo = run_driver([f"akai all {p} {FA.hxs('V/P')}"], timeout=600)[0].split(" || ")
+                            cases.append(Case(f"roland export [damage {rname} s{k} b{pos}={val}]", res, {"model": mo[0]}))
+                            cases.append(Case(f"roland ls [damage {rname} s{k} b{pos}={val}]", ls_res, {"model": mo[1] if len(mo) > 1 else mo[0]}))
+                    rep.feat("roland_damaged_images")
+                    rep.feat("roland_field_" + rname)
+                    rep.evaluations += 1
+                    rep.nontrivial.add(("roland", vi, rname, pos, val))
+                    detail = {"samples": [smp.name for smp in samples.values()], "damaged_sample": k, "record": rname, "byte": pos, "value": val, "error": err or lerr}
+                    if err or lerr:
+                        rep.findings.append(Finding("roland-damaged-record-crashes-directory", detail))
+                        continue
+                    names = FA.canon_ls(out)[2:]
+                    for i, smp in samples.items():
+                        if i == k:
+                            continue
+                        path = f"V/P/{smp.name}.wav"
+                        listed = any(l.startswith(smp.name + " ") for l in names)
+                        if not listed:
+                            # the damaged sample's new name may collide with / pair with a sibling: own class (cf. KF-C14-name-collision)
+                            raw = bytes(dmg[GR.DIR["samp"] + 32 * k: GR.DIR["samp"] + 32 * k + 16]).rstrip(b"\x00").decode("latin-1")
+                            klass = "roland-damaged-name-collides-with-sibling" if rname == "dir" and pos < 16 and raw.strip() == smp.name else "roland-damaged-record-hides-sibling"
+                            rep.findings.append(Finding(klass, dict(detail, sibling=smp.name, listing=names[:8])))
+                            break
+                        if files.get(path) != base_files.get(path):
+                            rep.findings.append(Finding("roland-damaged-record-changes-sibling-audio", dict(detail, sibling=smp.name)))
+                            break
+
+
 def run(ctx, rep: Report, deep: bool = False):
     rng = ctx.rng
     full = deep or not ctx.quick
     rep.rule = (
-        "generated AKAI volumes of 2-5 sample files; for each entry: every type-byte value (256), every value of each of the other 23 byte positions "
+        "Roland: a performance of 3-4 samples, every byte of one sample's directory and parameter record set to 4 values (thorough: all 256 on one image, 7 values on two more); generated AKAI volumes of 2-5 sample files; for each entry: every type-byte value (256), every value of each of the other 23 byte positions "
         "(thorough: all 256 on the first volume and every third value on two more, 12 values for the four padding bytes; quick: 12 values incl. 0, 0xff, valid/invalid AKAI character codes), plus random multi-byte damage confined to the entry; "
         "oracle: every other entry still listed under its name and exported byte-identically; a sample of damaged images also goes through the Lean model; "
         "distinct = (volume, entry, byte position, value); non-trivial = damage that changes the byte"
@@ -153,17 +216,18 @@ def run(ctx, rep: Report, deep: bool = False):
                     run_case(rep, cases, ctx, rng, bytes(dmg), disc, k, pos, val, base_files, base_names, False)
                     dmg[tbl + k * ENTRY + pos] = val
                 rep.feat("multi_byte_damage")
+    roland_sweep(ctx, rep, cases, rng, full)
     bad = 0
     for c in cases:
         model = (c.meta or {}).get("model")
-        same = FA.eq_export(model, c.impl) if c.op.startswith("akai export") else (model == c.impl)
+        same = FA.eq_export(model, c.impl) if " export " in c.op else (model == c.impl)
         if not same:
             bad += 1
             if len(rep.disagreements) < 50:
                 rep.disagreements.append({"family": "akai-damage", "op": c.op, "model": (model or "")[:600], "impl": c.impl[:600], "meta": None})
     rep.families["akai-damage"] = {"cases": len(cases), "disagreements": bad}
     rep.sample({"family": "akai-damage", "case": "entry k, byte position p set to v; ls A:/VOL + export compared with the undamaged run"})
-    rep.required_features = ["damaged_images", "field_name", "field_type", "field_size", "field_start", "multi_byte_damage", "field_boundary_values"]
+    rep.required_features = ["damaged_images", "field_name", "field_type", "field_size", "field_start", "multi_byte_damage", "field_boundary_values", "roland_damaged_images", "roland_field_dir", "roland_field_par"]
 
 
 def search(ctx, rep: Report):
